@@ -6,9 +6,12 @@ Driver of the trace monitor (lean_exe `drv_mon`).  Line protocol on stdin:
 * `reset`          monitor state := initial; prints `reset`
 * `OP <op line>`   the op about to be observed, in the syntax of `parseOp` (`Driver/Parse.lean`); prints nothing.
                    A line `parseOp` does not accept (driver-level ops: `cmp`, `asw …`, `makeMutH …`) is remembered
-                   as "no op": for the following observation only the op-independent checks K1 K2 K3 K5 run.
+                   as "no op": for the following observation only the op-independent checks K1 K2 K3 K5 run
+                   (not the per-op checks K4, K6 – K10).
 * `OBS <observation line of the implementation>`
-                   `<status> out=<out> ev=[<events>] aux=<n> | <slot probes>`; runs `M1.Mon.checkOp` with the
+                   `<status> out=<out> ev=[<events>] aux=<n> | <slot probes>` (each probe
+                   `s<i>=<kind>.<ty>@b<blk>+<off>/len<len>/cnt<count>/<digest>`, the digest is parsed too: K7, K9, K10
+                   use what a handle shows); runs `M1.Mon.checkOp` (K1 – K10) with the
                    remembered op (`checkObsOnly` if none) and prints `ok` or `FAIL <tag>:<message>;<tag>:<message>…`;
                    prints `unparsed` if the line cannot be parsed (monitor state unchanged).
 
@@ -49,6 +52,36 @@ def parseCnt (s : String) : Option (Option Nat) :=
   | some (n :: r) => if r.all (· == n) then some (some n) else none
   | _ => none
 
+/-- `?` (never written) or `<id>.<val>` -/
+def parseValItem (s : String) : Option (Option Item) :=
+  if s == "?" then some none else
+  match s.splitOn "." with
+  | [a, b] => do some (some ⟨← a.toNat?, ← b.toNat?⟩)
+  | _ => none
+
+/-- `` (no header) or `h<id>.<val>` -/
+def parseHdr (s : String) : Option (Option Item) :=
+  if s.isEmpty then some none else do
+    let it ← (← parseValItem (← stripPrefix "h" s))
+    some (some it)
+
+/-- inverse of `digest`: `!`, `<hdr>-` (a view whose elements are `MaybeUninit`), or `<hdr>[<item>,…]` -/
+def parseDig (s : String) : Option (Option Dig) :=
+  if s == "!" then some none else
+  match s.splitOn "-" with
+  | [hd, ""] => do some (some ⟨← parseHdr hd, none⟩)
+  | [_] =>
+    match s.splitOn "[" with
+    | [hd, rest] =>
+      match rest.splitOn "]" with
+      | [inner, ""] => do
+        let h ← parseHdr hd
+        let es ← if inner.isEmpty then some [] else (inner.splitOn ",").mapM parseValItem
+        some (some ⟨h, some es⟩)
+      | _ => none
+    | _ => none
+  | _ => none
+
 /-- `s<i>=<kind>.<ty>@b<blk>+<off>/len<len>/cnt<count or ->/<digest>` -/
 def parseSlot (s : String) : Option (Nat × SlotObs) :=
   match s.splitOn "=" with
@@ -57,11 +90,11 @@ def parseSlot (s : String) : Option (Nat × SlotObs) :=
     match ("=".intercalate rest).splitOn "@" with
     | kt :: addr =>
       match kt.splitOn ".", ("@".intercalate addr).splitOn "/" with
-      | [k, t], ba :: lenS :: cntS :: _ =>
+      | [k, t], [ba, lenS, cntS, digS] =>
         match ba.splitOn "+" with
         | [b, off] =>
           some (i, ⟨← parseKind k, ← parseTy t, ← parseBlk b, ← off.toNat?, ← (← stripPrefix "len" lenS).toNat?,
-            ← parseCnt (← stripPrefix "cnt" cntS)⟩)
+            ← parseCnt (← stripPrefix "cnt" cntS), ← parseDig digS⟩)
         | _ => none
       | _, _ => none
     | _ => none
@@ -97,6 +130,7 @@ def RawObs.toObs (r : RawObs) (op : Option Op) : Obs :=
   { panicked := isPanicStatus r.status
     badOp := isBadOpStatus r.status
     verdict := match op with | some op => verdictOfOut op r.out | none => none
+    valOut := valShown r.out
     evs := r.evs
     slots := r.slots }
 
